@@ -31,6 +31,10 @@ func init() {
 			ruleCounting(c, r, "", "write")
 			ruleBlockWriterHash(c, r, "")
 			ruleBlockFilters(c, r, "")
+			ruleFilterWriterDict(c, r, "")
+			ruleEncoderDictArgs(c, r, "")
+			ruleRingModulus(c, r, "", "enc")
+			ruleSpecIndices(c, r, "")
 			ruleCoderStates(c, r, "")
 			ruleProbModel(c, r, "")
 			ruleStateFormulas(c, r, "")
@@ -59,6 +63,9 @@ func init() {
 			ruleCodecSiblings(c, r, "")
 			ruleRingModulus(c, r, "", "dec")
 			ruleDecoderBounds(c, r, "")
+			ruleByteAtGuards(c, r, "")
+			ruleCtorReopen(c, r, "")
+			ruleSpecIndices(c, r, "")
 			ruleCounting(c, r, "", "read")
 			ruleRawEOFFlag(c, r, "")
 			ruleCheckEncoding(c, r, "")
@@ -88,6 +95,8 @@ func init() {
 			ruleLzmaWriterContract(c, r, "")
 			ruleSizeSign(c, r, "")
 			ruleLookahead(c, r, "")
+			ruleEncoderDictArgs(c, r, "")
+			ruleDeferFlush(c, r, "", "lzma")
 			rulePropsCode(c, r, "")
 			ruleReaderWindow(c, r, "")
 			ruleMatcherGuard(c, r, "", false)
@@ -122,6 +131,9 @@ func init() {
 			ruleSizeBeforeOp(c, r, "")
 			ruleLzmaWriterContract(c, r, "")
 			ruleSizeSign(c, r, "")
+			ruleSpecIndices(c, r, "")
+			ruleDecoderBounds(c, r, "")
+			ruleByteAtGuards(c, r, "")
 		},
 	})
 }
